@@ -568,7 +568,16 @@ fn probe(w: u32, h: u32, k: &mut u32, rw: bool, rng: &mut Rng) -> String {
     ops.push(format!("get {w} 0"));
     ops.push(format!("get 0 {h}"));
     if rw {
-        match rng.below(6) {
+        match rng.below(9) {
+            6 => ops.push(format!("copybv {w} {h}")),
+            7 | 8 => {
+                // source: a mutable sub-view (l..l+w, t..t+h) of a strided MutSlice2
+                let (l, t) = (rng.below(3) as u32, rng.below(3) as u32);
+                let (sw, sh) = (l + w + rng.below(2) as u32, t + h + rng.below(2) as u32);
+                let s = sw + rng.below(3) as u32;
+                let n = if sh == 0 { 0 } else { (sh - 1) * s + sw } + rng.below(3) as u32;
+                ops.push(format!("copym {sw} {sh} {s} {n} {l} {t} {} {}", l + w, t + h));
+            }
             0 => ops.push(format!("fill {}", v(k))),
             1 => ops.push(format!("fillw {}", v(k))),
             2 => ops.push(format!("rowsm {}", v(k))),
@@ -626,6 +635,7 @@ fn bad_op(w: u32, h: u32, rw: bool, rng: &mut Rng) -> String {
                 0 => format!("copyb {} {}", w + 1, h),
                 1 => format!("copyb {} {}", w, h + 1),
                 2 if h > 0 => format!("copys {w} {} {w} {}", h - 1, (h - 1) * w),
+                2 => format!("copym {} {} {} {} 0 0 {} {}", w + 2, h + 2, w + 3, (h + 1) * (w + 3) + w + 2, w + 1, h),
                 _ => format!("copys {w} {} {} {}", h + 2, w + 1, (h + 1) * (w + 1) + w),
             },
             _ => continue,
@@ -682,7 +692,13 @@ fn random_history(rng: &mut Rng, max_dim: u64, bad_rate: u64) -> String {
             }
             3 if stack.len() < 4 => {
                 let m = rw && rng.bool();
-                line += if m { " asm" } else { " asr" };
+                let inherent = rng.chance(1, 3);
+                line += match (m, inherent) {
+                    (true, false) => " asm",
+                    (true, true) => " asmi",
+                    (false, false) => " asr",
+                    (false, true) => " asri",
+                };
                 stack.push((w, h, m));
             }
             4 | 5 if stack.len() > 1 => {
@@ -768,6 +784,31 @@ pub fn gen(rng: &mut Rng, tier: Tier, out: &mut Vec<String>) {
                         }
                     }
                 }
+            }
+        }
+    }
+    // ---- the AsSlice2 / AsMutSlice2 front doors of every wrapper on strided views: read through
+    //      as_slice2() of a mutable sub-view, and use strided mutable views as copy_from sources
+    for w in 1..=3u32 {
+        for h in 1..=3u32 {
+            for gap in 0..=2u32 {
+                let s = w + gap;
+                let n = (h - 1) * s + w + 1;
+                // reads through <MutSlice2 as AsSlice2> / <Slice2 as AsSlice2> / <Buf2 as AsSlice2>
+                out.push(format!("seq ms {w} {h} {s} {n} asr dims rows iter end asm asr rows iter end fill 9 end rows"));
+                out.push(format!("seq is {w} {h} {s} {n} asr dims rows iter asr rows end end"));
+                out.push(format!(
+                    "seq newwith {} {} sub P 1 1 {} {} asr dims rows iter end asm rows asr iter end end end asr rows end",
+                    w + 2, h + 1, w + 1, h + 1
+                ));
+                // copy_from with a strided MutSlice2 source, whole and sub-view, into dense and strided destinations
+                out.push(format!("seq new {w} {h} copym {w} {h} {s} {n} 0 0 {w} {h} rows"));
+                out.push(format!(
+                    "seq ms {w} {h} {} {} copym {} {} {} {} 1 1 {} {} rows",
+                    w + 1, (h - 1) * (w + 1) + w,
+                    w + 2, h + 1, w + 2 + gap, h * (w + 2 + gap) + w + 2, w + 1, h + 1
+                ));
+                out.push(format!("seq new {w} {h} copybv {w} {h} rows copyb {w} {h} iter"));
             }
         }
     }
